@@ -232,12 +232,12 @@ var replayDescEndSrc string
 
 // descEndChecks: BOUNDED check of the real scanner under C13 and C12 (see the template).
 func (e *Engine) descEndChecks(id string) []fdResult {
-	if id != "C13" && id != "C12" {
+	if id != "C13" && id != "C12" && id != "C11" {
 		return nil
 	}
 	out := runPkgReplay(e, "scanner", replayDescEndSrc, "zz_govc_descend_test.go", "TestGovcDescriptionEnd", "keywords after a Description text on the real scanner:")
 	return []fdResult{{Name: "scanner.Scanner/bounded/description-end#1", Props: []string{id},
-		Goal: "BOUNDED (30 keywords and the codes 100-599, 3 continuations each; 6 near-misses): a line of an unparenthesised Description text that begins with a keyword or a response code ends the text and is reported as that keyword (bounded sample, not a proof)",
+		Goal: "BOUNDED (30 keywords and the codes 100-599, 3 continuations each; 6 near-misses): a line of an unparenthesised Description text that begins with a keyword or a response code ends the text and is reported as that keyword; a closing parenthesis after the text closes the context whatever follows it on its line (7 tails) (bounded sample, not a proof)",
 		OK:   strings.Contains(out, "DONE tried=") && !strings.Contains(out, "REPRODUCED input"), Detail: out}}
 }
 
